@@ -290,6 +290,12 @@ func (fr *frame) doAlloc(b *ssa.BasicBlock, st *state, x *ssa.Alloc) {
 	}
 	r := fr.newObj(st, x, tyid)
 	fr.objTerm[x] = baseObj{term: fmt.Sprintf("(oid %s)", r), typ: el}
+	// text buffer model: a fresh bytes.Buffer (zero value) holds the empty text
+	if el.String() == "bytes.Buffer" {
+		if _, ok := vc.w.db.Ghosts["bufstr"]; ok && vc.ensureKey("G_bufstr") {
+			vc.assumeG(fmt.Sprintf("(= (select %s %s) \"\")", c.heapGet(st, "G_bufstr"), r))
+		}
+	}
 	// allocation does not change the heap arrays: the cells of the fresh object are assumed to hold zero values
 	if at, ok := el.Underlying().(*types.Array); ok {
 		if at.Len() <= 16 {
